@@ -359,8 +359,8 @@ pub fn family(name: &str, kmax: i64, rng: &mut Rng) -> Family {
     let (mode_a, mode_b, cell, shift) = match base {
         "rect" => (4, 4, 2, (0, 0)),
         "rectw" => (4, 4, 1, (0, 0)),
-        "cx" => {
-            let m = *rng.pick(&[0u32, 1, 2, 3]);
+        "cx" | "cxabut" | "cxsub" => {
+            let m = *rng.pick(&[0u32, 1, 2, 3, 4]);
             (m, m, 2, (0, 0))
         }
         "cxmix" => {
@@ -385,6 +385,41 @@ pub fn family(name: &str, kmax: i64, rng: &mut Rng) -> Family {
     let mat = if aff { Some(*rng.pick(&MATS)) } else { None };
     let (kx, ky, origin) = if base == "rectw" { (kx + rng.range(0, 3), ky + rng.range(0, 3), (rng.range(-40, 40), rng.range(-40, 40))) } else { (kx, ky, (0, 0)) };
     Family { name: name.to_string(), kx, ky, mode_a, mode_b, cell, shift, simp, dens, mat, origin }
+}
+
+/// Operand pair whose second operand is drawn from the complement of the first ("cxabut": the
+/// operands abut along many shared boundary segments, interiors disjoint) or from the first
+/// itself ("cxsub": B inside A with shared boundary pieces), on one triangulation.
+pub fn related_pair(f: &Family, rng: &mut Rng) -> (Vec<(Vec<P>, Vec<Vec<P>>)>, Vec<(Vec<P>, Vec<Vec<P>>)>) {
+    let tris = complex(f.kx, f.ky, f.mode_a, f.cell, f.origin);
+    let sel_a = select(tris.len(), f.mode_a, f.dens, rng);
+    let pick = select(tris.len(), f.mode_a, 65, rng);
+    let abut = f.name.ends_with("cxabut");
+    let sel_b: Vec<bool> = (0..tris.len()).map(|i| pick[i] && (sel_a[i] != abut)).collect();
+    let tf = |polys: Vec<(Vec<P>, Vec<Vec<P>>)>| -> Vec<(Vec<P>, Vec<Vec<P>>)> {
+        match f.mat {
+            None => polys,
+            Some(m) => {
+                let det = m[0] * m[3] - m[1] * m[2];
+                let t = |p: P| (m[0] * p.0 + m[1] * p.1, m[2] * p.0 + m[3] * p.1);
+                polys
+                    .into_iter()
+                    .map(|(e, hs)| {
+                        let mut e2: Vec<P> = e.iter().map(|p| t(*p)).collect();
+                        let mut h2: Vec<Vec<P>> = hs.iter().map(|h| h.iter().map(|p| t(*p)).collect()).collect();
+                        if det < 0 {
+                            e2.reverse();
+                            for h in h2.iter_mut() {
+                                h.reverse();
+                            }
+                        }
+                        (e2, h2)
+                    })
+                    .collect()
+            }
+        }
+    };
+    (tf(group(rings(&tris, &sel_a), f.simp)), tf(group(rings(&tris, &sel_b), f.simp)))
 }
 
 /// canonical polygons (exterior CCW, holes CW, unclosed) of a random operand of the family
@@ -438,4 +473,207 @@ pub fn lattice_triangles(n: i64, l: i64) -> Vec<[P; 3]> {
     }
     out.sort();
     out
+}
+
+// ------------------------------------------------------------------------------------------
+// family "frames": axis-parallel frames (rectangles with rectangular holes, optional island)
+// against rectangles that ABUT a boundary edge of the frame from one side, overlap it, or float
+// freely: operands sharing boundary segments, pieces directly above shared segments.
+
+fn rect_ring(x0: i64, y0: i64, x1: i64, y1: i64, ccw: bool) -> Vec<P> {
+    let r = vec![(x0, y0), (x1, y0), (x1, y1), (x0, y1)];
+    if ccw {
+        r
+    } else {
+        r.into_iter().rev().collect()
+    }
+}
+type Rect = (i64, i64, i64, i64);
+fn touch_more_than_point(a: Rect, b: Rect) -> bool {
+    // closed rectangles: do they share more than a single point?
+    let ix = (a.0.max(b.0), a.2.min(b.2));
+    let iy = (a.1.max(b.1), a.3.min(b.3));
+    if ix.0 > ix.1 || iy.0 > iy.1 {
+        return false;
+    }
+    !(ix.0 == ix.1 && iy.0 == iy.1)
+}
+pub fn frames_pair(rng: &mut Rng) -> (Vec<(Vec<P>, Vec<Vec<P>>)>, Vec<(Vec<P>, Vec<Vec<P>>)>) {
+    let ox = rng.range(-6, 6);
+    let oy = rng.range(-6, 6);
+    let (w, h) = (rng.range(5, 12), rng.range(5, 12));
+    let outer: Rect = (ox, oy, ox + w, oy + h);
+    // holes
+    let mut holes: Vec<Rect> = vec![];
+    for _ in 0..rng.range(1, 2) {
+        for _try in 0..20 {
+            let x0 = rng.range(outer.0 + 1, outer.2 - 2);
+            let y0 = rng.range(outer.1 + 1, outer.3 - 2);
+            let x1 = rng.range(x0 + 1, outer.2 - 1);
+            let y1 = rng.range(y0 + 1, outer.3 - 1);
+            let c = (x0, y0, x1, y1);
+            if holes.iter().all(|hh| !touch_more_than_point(*hh, c)) {
+                holes.push(c);
+                break;
+            }
+        }
+    }
+    let mut a = vec![(rect_ring(outer.0, outer.1, outer.2, outer.3, true), holes.iter().map(|q| rect_ring(q.0, q.1, q.2, q.3, false)).collect::<Vec<_>>())];
+    // optional islands: inside a hole (strictly) or somewhere outside
+    if !holes.is_empty() && rng.chance(1, 3) {
+        let q = holes[0];
+        if q.2 - q.0 >= 3 && q.3 - q.1 >= 3 {
+            a.push((rect_ring(q.0 + 1, q.1 + 1, q.2 - 1, q.3 - 1, true), vec![]));
+        }
+    }
+    if rng.chance(1, 3) {
+        let (iw, ih) = (rng.range(1, 4), rng.range(1, 4));
+        let x0 = rng.range(outer.0, outer.2 - 1);
+        let y0 = outer.3 + rng.range(1, 4);
+        a.push((rect_ring(x0, y0, x0 + iw, y0 + ih, true), vec![]));
+    }
+    // B: rectangles attached to edges of the frame
+    let mut edges: Vec<(Rect, u8)> = vec![]; // (edge as degenerate rect, side: 0 bottom-of-outer.. )
+    let add_edges = |r: Rect, edges: &mut Vec<(Rect, u8)>| {
+        edges.push(((r.0, r.1, r.2, r.1), 0)); // bottom edge (horizontal, y = r.1)
+        edges.push(((r.0, r.3, r.2, r.3), 1)); // top
+        edges.push(((r.0, r.1, r.0, r.3), 2)); // left (vertical, x = r.0)
+        edges.push(((r.2, r.1, r.2, r.3), 3)); // right
+    };
+    add_edges(outer, &mut edges);
+    for q in &holes {
+        add_edges(*q, &mut edges);
+    }
+    let mut brects: Vec<Rect> = vec![];
+    let nb = rng.range(1, 3);
+    for _ in 0..nb {
+        for _try in 0..30 {
+            let c: Rect = if rng.chance(1, 4) {
+                let x0 = rng.range(outer.0 - 3, outer.2 + 1);
+                let y0 = rng.range(outer.1 - 3, outer.3 + 1);
+                (x0, y0, x0 + rng.range(1, 6), y0 + rng.range(1, 6))
+            } else {
+                let (e, side) = *rng.pick(&edges);
+                let depth = rng.range(1, 3);
+                let below_or_left = rng.chance(1, 2);
+                if side < 2 {
+                    // horizontal edge at y = e.1: choose an x-interval overlapping it
+                    let a0 = rng.range(e.0 - 2, e.2 - 1);
+                    let a1 = rng.range(a0.max(e.0) + 1, e.2 + 2);
+                    if below_or_left { (a0, e.1 - depth, a1, e.1) } else { (a0, e.1, a1, e.1 + depth) }
+                } else {
+                    let a0 = rng.range(e.1 - 2, e.3 - 1);
+                    let a1 = rng.range(a0.max(e.1) + 1, e.3 + 2);
+                    if below_or_left { (e.0 - depth, a0, e.0, a1) } else { (e.0, a0, e.0 + depth, a1) }
+                }
+            };
+            if c.0 < c.2 && c.1 < c.3 && brects.iter().all(|q| !touch_more_than_point(*q, c)) {
+                brects.push(c);
+                break;
+            }
+        }
+    }
+    let b = brects.iter().map(|q| (rect_ring(q.0, q.1, q.2, q.3, true), vec![])).collect();
+    (a, b)
+}
+
+// ------------------------------------------------------------------------------------------
+// family "lat": simple polygons with vertices on a small lattice and GENERAL slopes, scaled by
+// the least common denominator of all their pairwise edge intersection points, so that the
+// exact arrangement is integral (|coordinate| <= 4000).
+
+fn gcd(a: i64, b: i64) -> i64 {
+    if b == 0 {
+        a.abs()
+    } else {
+        gcd(b, a % b)
+    }
+}
+fn seg_cross_den(a1: P, a2: P, b1: P, b2: P) -> Option<i64> {
+    // denominator needed to make the meeting point of two non-parallel segments integral (None: no single-point meeting)
+    let va = sub(a2, a1);
+    let vb = sub(b2, b1);
+    let e = sub(b1, a1);
+    let k = cross(va, vb);
+    if k == 0 {
+        return None;
+    }
+    let (sn, tn) = (cross(e, vb), cross(e, va));
+    let inr = |x: i64| if k > 0 { x >= 0 && x <= k } else { x <= 0 && x >= k };
+    if !inr(sn) || !inr(tn) {
+        return None;
+    }
+    // point = a1 + sn/k * va
+    let dx = k.abs() / gcd(sn * va.0, k);
+    let dy = k.abs() / gcd(sn * va.1, k);
+    Some(dx / gcd(dx, dy) * dy)
+}
+fn simple_polygon(n: i64, rng: &mut Rng) -> Vec<P> {
+    loop {
+        let m = rng.range(3, 5) as usize;
+        let mut pts: Vec<P> = vec![];
+        while pts.len() < m {
+            let p = (rng.range(0, n), rng.range(0, n));
+            if !pts.contains(&p) {
+                pts.push(p);
+            }
+        }
+        // star-shaped ordering around the (tripled) centroid
+        let c = (pts.iter().map(|p| p.0).sum::<i64>() as f64 / m as f64, pts.iter().map(|p| p.1).sum::<i64>() as f64 / m as f64);
+        pts.sort_by(|a, b| {
+            let aa = (a.1 as f64 - c.1).atan2(a.0 as f64 - c.0);
+            let bb = (b.1 as f64 - c.1).atan2(b.0 as f64 - c.0);
+            aa.partial_cmp(&bb).unwrap()
+        });
+        if area2(&pts) <= 0 {
+            continue;
+        }
+        // exact simplicity: no collinear consecutive triple, non-adjacent edges do not meet, adjacent only at the vertex
+        let ok = (0..m).all(|i| {
+            let (a, b, c2) = (pts[i], pts[(i + 1) % m], pts[(i + 2) % m]);
+            cross(sub(b, a), sub(c2, b)) != 0
+        }) && (0..m).all(|i| {
+            (0..m).all(|j| {
+                if i == j || (i + 1) % m == j || (j + 1) % m == i {
+                    return true;
+                }
+                let (a1, a2, b1, b2) = (pts[i], pts[(i + 1) % m], pts[j], pts[(j + 1) % m]);
+                let o = |p: P, q: P, r: P| cross(sub(q, p), sub(r, p)).signum();
+                let (o1, o2, o3, o4) = (o(a1, a2, b1), o(a1, a2, b2), o(b1, b2, a1), o(b1, b2, a2));
+                !((o1 * o2 <= 0) && (o3 * o4 <= 0))
+            })
+        });
+        if ok {
+            return pts;
+        }
+    }
+}
+pub fn lat_pair(rng: &mut Rng) -> (Vec<(Vec<P>, Vec<Vec<P>>)>, Vec<(Vec<P>, Vec<Vec<P>>)>) {
+    loop {
+        let n = rng.range(3, 6);
+        let a = simple_polygon(n, rng);
+        let mut b = simple_polygon(n, rng);
+        // often push B towards a corner region of A's box so that the boxes overlap only a little
+        if rng.chance(1, 2) {
+            let d = (rng.range(-n + 1, n - 1), rng.range(-n + 1, n - 1));
+            b = b.iter().map(|p| (p.0 + d.0, p.1 + d.1)).collect();
+        }
+        let mut l: i64 = 1;
+        let mut ok = true;
+        for i in 0..a.len() {
+            for j in 0..b.len() {
+                if let Some(d) = seg_cross_den(a[i], a[(i + 1) % a.len()], b[j], b[(j + 1) % b.len()]) {
+                    l = l / gcd(l, d) * d;
+                    if l > 600 {
+                        ok = false;
+                    }
+                }
+            }
+        }
+        if !ok || l * 2 * n > 4000 {
+            continue;
+        }
+        let sc = |r: &Vec<P>| -> Vec<P> { r.iter().map(|p| (p.0 * l, p.1 * l)).collect() };
+        return (vec![(sc(&a), vec![])], vec![(sc(&b), vec![])]);
+    }
 }
